@@ -186,11 +186,17 @@ def _selective(builtin, marker):
 MP_BODY = ('--B\r\nContent-Disposition: form-data; name="a"\r\n%s\r\nvalue\r\n--B--\r\n')
 
 
-def _req(method, path, headers=(), body='', qs=''):
+def _req(method, path, headers=(), body='', qs='', proto='HTTP/1.1'):
     hs = [['Host', 'localhost:8080']] + [list(h) for h in headers]
     if body or method == 'POST':
         hs.append(['Content-Length', str(len(body))])
-    return {'target': 'site', 'method': method, 'path': path, 'qs': qs, 'proto': 'HTTP/1.1', 'headers': hs, 'body': body}
+    return {'target': 'site', 'method': method, 'path': path, 'qs': qs, 'proto': proto, 'headers': hs, 'body': body}
+
+
+def _proto_of(desc):
+    """The protocol dimension of a unit case: a deterministic function of the case (replayable), half of each."""
+    import zlib
+    return 'HTTP/1.0' if zlib.crc32(json.dumps(list(desc), sort_keys=True).encode()) & 1 else 'HTTP/1.1'
 
 
 def sites():
@@ -269,14 +275,18 @@ CONTRACT = {
 }
 
 
-def measure_catch_table():
-    """(site, class) -> status, by fault injection on the live code."""
+def measure_catch_table(proto='HTTP/1.1', head=False):
+    """(site, class) -> status, by fault injection on the live code.  `proto` / `head`: the same probes sent as
+    HTTP/1.0 and - where the probe is a GET - as HEAD (the catch structure must not depend on either)."""
     app.setup()
     _ensure_codec()
     table = {}
     ss = sites()
     for s in SITE_ORDER:
         mk_patch, req = ss[s]
+        req = dict(req, proto=proto)
+        if head and req['method'] == 'GET':
+            req['method'] = 'HEAD'
         base = app.call(req)
         if base['status'] not in (200, 206) and not (s == 'digestKeqv' and base['status'] == 401):
             # the un-injected probe is not answered normally on this tree: record what it does (the table then
@@ -391,11 +401,13 @@ def fuzz_contracts(ctx, n):
 # request stream: oracle
 # ----------------------------------------------------------------------------------------------
 def case_key(c):
-    return json.dumps([c['target'], c['method'], c['path'], c['qs'], c['proto'], c['headers'], c['body']])
+    return json.dumps([c['target'], c['method'], c['path'], c['qs'], c['proto'], c['headers'], c['body'],
+                       c.get('pre'), c.get('digest'), c.get('clock')])
 
 
 def nontrivial(c):
-    return not (c['method'] == 'GET' and not c['qs'] and not c['body'] and len(c['headers']) <= 1)
+    return not (c['method'] == 'GET' and not c['qs'] and not c['body'] and len(c['headers']) <= 1
+                and not c.get('pre') and not c.get('digest'))
 
 
 def digest_auth_int_case():
@@ -409,24 +421,47 @@ def digest_auth_int_case():
 
 
 def run_request(c):
-    """Run one request case on the real code; caching targets are primed with a plain GET first."""
+    """Run one request case on the real code (with the earlier requests of the same client, if the case has any);
+    caching targets are primed with a plain GET first.  The observation carries the request as actually sent."""
     if c.get('dynamic') == 'digest_auth_int':
         c = digest_auth_int_case()
-    if c.get('target') == 'cache' or c.get('prime'):
-        app.call({'target': 'cache', 'method': 'GET', 'path': c['path'], 'qs': c['qs'], 'proto': 'HTTP/1.1',
-                  'headers': [['Host', 'localhost:8080']], 'body': ''})
-    return app.call(c)
+    if (c.get('target') == 'cache' or c.get('prime')) and not c.get('pre'):
+        c = dict(c, pre=[{'method': 'GET', 'path': c['path'], 'qs': c['qs'], 'proto': 'HTTP/1.1',
+                          'headers': [['Host', 'localhost:8080']], 'body': ''}])
+    obs, pre_obs, sent = app.run_steps(c)
+    obs['sent'] = sent
+    obs['pre_status'] = [o['status'] for o in pre_obs]
+    return obs
+
+
+def describe_sent(c, obs):
+    """The concrete failing input for the report: the request as it went over the wire."""
+    sent = obs.get('sent') or c
+    parts = ['%s %s%s %s' % (sent['method'], sent['path'], ('?' + sent['qs']) if sent.get('qs') else '', sent.get('proto'))]
+    if c.get('pre'):
+        parts.insert(0, 'after %s:' % ', '.join('%s %s -> %s' % (p['method'], p['path'], st)
+                                               for p, st in zip(c['pre'], obs.get('pre_status') or [])))
+    interesting = [h for h in sent.get('headers', []) if h[0] not in ('Host', 'Content-Length') or h[1] != 'localhost:8080']
+    if interesting:
+        parts.append('headers %s' % json.dumps(interesting)[:700])
+    return ' '.join(parts)
 
 
 def check_request(ctx, c, obs=None):
     obs = obs or run_request(c)
     ctx.case(c, nontrivial=nontrivial(c), key=case_key(c))
-    ctx.count('target:' + c['target'])
+    ctx.count('target:' + c['target'].split(':')[0])
     ctx.count('status:%s' % obs['status'])
+    ctx.count('proto:%s:%s' % (c.get('proto'), c['method'] if c['method'] in ('GET', 'HEAD', 'POST') else 'other'))
     if obs['status'] >= 500:
         sig = app.signature(obs)
         ctx.count('5xx:' + sig)
-        ctx.oracle_fail(c, '%s %s -> status %s (%s)' % (c['method'], c['path'], obs['status'], sig), sig)
+        ctx.oracle_fail(c, '%s -> status %s (%s)' % (describe_sent(c, obs), obs['status'], sig), sig)
+    elif obs.get('malformed'):
+        sig = 'malformed-response:' + obs['malformed'].split(' ')[0]
+        ctx.count('malformed:' + sig)
+        ctx.oracle_fail(c, '%s -> status %s but the response is not well-formed: %s'
+                        % (describe_sent(c, obs), obs['status'], obs['malformed']), sig)
     return obs
 
 
@@ -441,7 +476,9 @@ def _worker(args):
         for _ in range(n):
             c = gen.gen_case(rng, digest_ctx=dctx)
             obs = run_request(c)
-            out.append((c, {'status': obs['status'], 'exc': obs['exc'], 'escaped': obs['escaped']}))
+            out.append((c, {'status': obs['status'], 'exc': obs['exc'], 'escaped': obs['escaped'],
+                            'malformed': obs.get('malformed'), 'sent': obs.get('sent') if obs['status'] >= 500 else None,
+                            'pre_status': obs.get('pre_status')}))
     finally:
         app.teardown()
     return out
@@ -460,6 +497,49 @@ def request_stream(ctx, n):
     for res in common.parallel_map(_worker, [(s, per, None) for s in seeds]):
         for c, obs in res:
             # keep only a digest of the big stream in memory: failures + counters
+            check_request(ctx, c, obs)
+
+
+def cross_cases(rng, quick):
+    """The systematic cross streams (c07_gen, round 2): second steps of stateful protocols, reflecting resources x
+    protocol x method x text beyond U+00FF, RFC 2047 words in every consumed header."""
+    cs = []
+    for _ in range(1 if quick else 6):
+        cs += gen.digest_cases(rng, extra=120 if quick else 600)
+    cs += gen.basic_cases(rng)
+    for _ in range(1 if quick else 4):
+        cs += gen.session_cases(rng)
+        cs += gen.conditional_cases(rng)
+        cs += gen.encword_cases(rng)
+    cs += gen.cache_cases(rng, 250 if quick else 4000)
+    cs += gen.reflect_cases(rng, 2 if quick else 36)
+    return cs
+
+
+def _cross_worker(cases):
+    app.setup()
+    out = []
+    try:
+        for c in cases:
+            obs = run_request(c)
+            out.append({'status': obs['status'], 'exc': obs['exc'], 'escaped': obs['escaped'],
+                        'malformed': obs.get('malformed'), 'sent': obs.get('sent') if obs['status'] >= 500 else None,
+                        'pre_status': obs.get('pre_status')})
+    finally:
+        app.teardown()
+    return out
+
+
+def cross_stream(ctx):
+    cases = cross_cases(ctx.rng, ctx.quick())
+    ctx.extra['cross_stream_cases'] = len(cases)
+    if ctx.quick():
+        for c in cases:
+            check_request(ctx, c)
+        return
+    chunks = [cases[i::48] for i in range(48)]
+    for chunk, res in zip(chunks, common.parallel_map(_cross_worker, chunks)):
+        for c, obs in zip(chunk, res):
             check_request(ctx, c, obs)
 
 
@@ -589,35 +669,36 @@ def real_unit(desc):
     """The real side of one unit case: outcome class of the parser, and the status at its site."""
     from cherrypy.lib import httputil
     kind = desc[0]
+    proto = _proto_of(desc)
     if kind == 'ranges':
         _, hv, ln = desc
         raw = _real_class(lambda: httputil._get_ranges(hv, ln))
-        obs = app.call(_req('GET', '/file', [['Range', hv]]))
+        obs = app.call(_req('GET', '/file', [['Range', hv]], proto=proto))
         return '%s %s' % (raw, _cls_status(obs['status'])), obs
     if kind == 'qs':
         raw = _real_class(lambda: httputil.parse_query_string(desc[1]))
-        obs = app.call(_req('GET', '/plain', qs=desc[1]))
+        obs = app.call(_req('GET', '/plain', qs=desc[1], proto=proto))
         return '%s %s' % (raw, _cls_status(obs['status'])), obs
     if kind == 'urlenc':
         _, body, names = desc
         ct = 'application/x-www-form-urlencoded' + (''.join('; charset=' + x for x in names))
-        obs = app.call(_req('POST', '/form', [['Content-Type', ct]], body))
+        obs = app.call(_req('POST', '/form', [['Content-Type', ct]], body, proto=proto))
         return _cls_status(obs['status']), obs
     if kind == 'multipart':
         _, ib, body, short = desc
-        req = _req('POST', '/upload', [['Content-Type', 'multipart/mixed; boundary="%s"' % ib]], body)
+        req = _req('POST', '/upload', [['Content-Type', 'multipart/mixed; boundary="%s"' % ib]], body, proto=proto)
         if short:
             req['headers'][-1][1] = str(len(body) + 7)
         obs = app.call(req)
         return _cls_status(obs['status']), obs
     if kind == 'fstar':
-        obs = app.call(_req('GET', '/plain', [['Content-Disposition', 'form-data; filename*=' + desc[1]]]))
+        obs = app.call(_req('GET', '/plain', [['Content-Disposition', 'form-data; filename*=' + desc[1]]], proto=proto))
         return _cls_status(obs['status']), obs
     if kind == 'qvalue':
         raw = _real_class(lambda: httputil.AcceptElement('x', {'q': desc[1]}).qvalue)
         return raw, None
     if kind == 'maxage':
-        obs = run_request(dict(_req('GET', '/cache/u', [['Cache-Control', desc[1]]]), prime=True))
+        obs = run_request(dict(_req('GET', '/cache/u', [['Cache-Control', desc[1]]], proto=proto), prime=True))
         return _cls_status(obs['status']), obs
     raise common.HarnessError('unknown unit kind %r' % (kind,))
 
@@ -667,15 +748,25 @@ def check_contract_copy(ctx):
         if got != sorted(CONTRACT[s]):
             raise common.HarnessError('contract of site %s differs between harness (%s) and Lean (%s)'
                                       % (s, sorted(CONTRACT[s]), got))
-    # the model's catch map against a fresh measurement (same data as the generated table, compared through the driver)
-    tab = measure_catch_table()
-    keys = sorted(tab)
-    out = ctx.model(['catch %s %s' % k for k in keys])
-    for k, l in zip(keys, out):
-        ctx.compared()
-        ctx.count('catch:%s' % ('5xx' if tab[k] >= 500 else '%dxx' % (tab[k] // 100)))
-        if l != str(tab[k]):
-            ctx.disagree({'site': k[0], 'exc': k[1]}, tab[k], l, 'catch map: status of (%s, %s) differs' % k)
+    # the model's catch map against fresh measurements (same data as the generated table, compared through the
+    # driver), for HTTP/1.1 GET/POST probes, the same probes as HTTP/1.0, and as HEAD over HTTP/1.0
+    for proto, head in (('HTTP/1.1', False), ('HTTP/1.0', False), ('HTTP/1.0', True), ('HTTP/1.1', True)):
+        tab = measure_catch_table(proto, head)
+        if (proto, head) != ('HTTP/1.1', False):
+            # a probe that does not reach its site under this protocol / method (Range is not looked at for
+            # HTTP/1.0) answers the same whatever is injected: nothing to compare there
+            for site in SITE_ORDER:
+                if len(set(v for k, v in tab.items() if k[0] == site)) == 1:
+                    ctx.count('catch:%s:site-not-reached:%s' % (proto + ('+HEAD' if head else ''), site))
+                    tab = {k: v for k, v in tab.items() if k[0] != site}
+        keys = sorted(tab)
+        out = ctx.model(['catch %s %s' % k for k in keys])
+        for k, l in zip(keys, out):
+            ctx.compared()
+            ctx.count('catch:%s:%s' % (proto + ('+HEAD' if head else ''), '5xx' if tab[k] >= 500 else '%dxx' % (tab[k] // 100)))
+            if l != str(tab[k]):
+                ctx.disagree({'site': k[0], 'exc': k[1], 'proto': proto, 'head': head}, tab[k], l,
+                             'catch map: status of (%s, %s) differs' % k)
 
 
 # ----------------------------------------------------------------------------------------------
@@ -743,6 +834,7 @@ def run(ctx):
         check_contract_copy(ctx)
         fuzz_contracts(ctx, ctx.budget(1500, 40000))
         unit_stream(ctx, ctx.budget(3500, 120000))
+        cross_stream(ctx)
         request_stream(ctx, ctx.budget(6000, 400000))
     finally:
         app.teardown()
@@ -781,6 +873,8 @@ def replay(ctx, case):
         real, model = run_case(ctx, case)
         print('case  :', json.dumps(case)[:2000])
         print('impl  :', real if isinstance(real, str) else {k: real[k] for k in ('status', 'exc')})
+        if not isinstance(real, str) and real.get('sent') and (case.get('pre') or case.get('digest')):
+            print('sent  :', describe_sent(case, real)[:3000])
         if model is not None:
             print('model :', model)
     finally:
